@@ -11,6 +11,25 @@ pub unsafe extern "C" fn unsafe_extern<D>(deps: &D, p: *const u8) -> u8 {
     *p
 }
 
+/// `unsafe` that is not the first qualifier
+#[entrait(pub ConstUnsafe)]
+pub const unsafe fn const_unsafe<D>(deps: &D, p: *const u8) -> u8 {
+    *p
+}
+#[entrait(AsyncUnsafe)]
+pub(crate) async unsafe fn async_unsafe<D>(deps: &D, v: &[u8]) -> u8 {
+    *v.get_unchecked(0)
+}
+#[entrait(ConstUnsafeExtern, no_deps)]
+const unsafe extern "C" fn const_unsafe_extern(p: *const u8) -> u8 {
+    *p
+}
+
+#[deny(unused_unsafe)]
+fn caller2(app: &Impl<()>, p: *const u8) -> u8 {
+    unsafe { const_unsafe(app, p) + const_unsafe_extern(p) }
+}
+
 #[deny(unused_unsafe)]
 fn caller(app: &Impl<()>, p: *const u8) -> u8 {
     // if the macro dropped `unsafe`, this block is unused and the lint (denied) rejects the module
